@@ -36,7 +36,7 @@ mod c18 {
             if ENV_BUDGET > 0 && kani::any() {
                 ENV_BUDGET -= 1;
                 let v: i64 = kani::any();
-                kani::assume(v > LAST && v < i64::MAX);
+                kani::assume(v > LAST && v < i64::MAX - 16); // precondition: timestamps stay clear of i64::MAX (year 294247)
                 LAST = v;
             }
         }
